@@ -24,7 +24,7 @@ ASSUMPTIONS = [
     "query expressions are compared as (field, expression template, identifier) atoms",
 ] + c01.ASSUMPTIONS[:2]
 
-VALUES = ["p%a%q", "%a%", "%a%%b%", "x%a%y%b%z", "%c%", "*%a%*", "%a%*", "\\%a%", "a\\%b%a%", "%a% and %b%", "plain", "%a%%a%", "%b%x",
+VALUES = ["%a% -x", "-p%b%", "p%a%q", "%a%", "%a%%b%", "x%a%y%b%z", "%c%", "*%a%*", "%a%*", "\\%a%", "a\\%b%a%", "%a% and %b%", "plain", "%a%%a%", "%b%x",
           "%zz%", "100%", "%", "%%", "%a", "%a%?"]
 VARS_POOL = {"a": [["v1", "v2"], ["v1"], "single", ["w*", 3], [1.5, "x y"], [], [None], {"k": 1}, ["a\\*b"], [True]],
              "b": [["b1", "b2"], "B", [2], ["*"], None],
@@ -62,7 +62,7 @@ def gen_cases(tier, seed, gen, effort):
                 "cased": "all", "explicitNotExists": False, "nativeCidr": True}
     for _ in range((2500 if not thorough else 40000) * effort):
         mods = rnd.choice(["expand", "expand", "expand|contains", "contains|expand", "expand|all", "expand|startswith", "expand|cased", "cased|expand",
-                           "expand|endswith|all", "", "re|expand"])
+                           "expand|endswith|all", "", "re|expand", "expand|windash", "expand|windash|all"])
         v = rnd.choice(VALUES)
         if rnd.random() < 0.35:
             v = [v, rnd.choice(VALUES)]
